@@ -359,7 +359,8 @@ class IntegrityChecker(object):
         cues = []
         lends = len(self.ds)
         if "index" in self.ds:
-            if not np.all(self.ds["index"] == np.arange(1, lends + 1)):
+            if not np.array_equal(self.ds["index"],
+                                  np.arange(1, lends + 1)):
                 cues.append(ICue(
                     msg="The index feature is not enumerated correctly",
                     level="violation",
@@ -489,6 +490,9 @@ class IntegrityChecker(object):
             spe = self.ds.config["fluorescence"]["samples per event"]
             if "trace" in self.ds:
                 for key in self.ds["trace"].keys():
+                    if len(self.ds["trace"][key]) == 0:
+                        # empty traces are reported by `check_feature_size`
+                        continue
                     spek = self.ds["trace"][key][0].size
                     if spek != spe:
                         cues.append(ICue(
@@ -505,7 +509,7 @@ class IntegrityChecker(object):
         cues = []
         neg_feats = []
         for fl in ['fl1_max', 'fl2_max', 'fl3_max']:
-            if fl in self.ds:
+            if fl in self.ds and len(self.ds[fl]):
                 if min(self.ds[fl]) <= 0.1:
                     neg_feats.append(fl)
         if neg_feats:
@@ -520,7 +524,7 @@ class IntegrityChecker(object):
         cues = []
         neg_feats = []
         for fl in ['fl1_max_ctc', 'fl2_max_ctc', 'fl3_max_ctc']:
-            if fl in self.ds:
+            if fl in self.ds and len(self.ds[fl]):
                 if min(self.ds[fl]) <= 0.1:
                     neg_feats.append(fl)
         if neg_feats:
